@@ -337,6 +337,22 @@ def run(ctx, host=None):
     else:
         chk.bad(R2s, SELECT, 'size source', f'the size compared with pack_size_target is not `{kparam}[{var}]` when the caller knows it: stat() of the locked pack misses buffered appends, so the '
                 'fill decision lags and a pack grows beyond its target before the next one is started', where=f'{sel.module.relpath}:{sel.lineno}')
+    # the cached starting point of the selector is dropped when the container is cleared (else the new container starts at pack N instead of 0)
+    ic = prog.fn('container:Container.init_container')
+    clear_ifs = [n for n in walk_local(ic.node) if isinstance(n, ast.If) and norm(n.test) == 'clear']
+    reset = any(isinstance(a, ast.Assign) and isinstance(a.value, ast.Constant) and a.value.value is None and any(isinstance(t, ast.Attribute) and t.attr == '_current_pack_id' for t in a.targets)
+                for ci in clear_ifs for b in ci.body for a in ast.walk(b))
+    if reset:
+        chk.ok(R2s, ic.qualname, 'self._current_pack_id = None under `if clear:`', detail='a cleared container starts numbering its packs at 0 again', nontrivial=False)
+    else:
+        chk.bad(R2s, ic.qualname, '_current_pack_id not reset', 'clearing the container does not reset the cached pack id: packs of the new container are not numbered from 0, and a fresh handle later writes below them',
+                where=f'{ic.module.relpath}:{ic.lineno}')
+    # rules of other properties that are necessary conditions of this one too: rows that designate bytes beyond the end of the pack (commit before the
+    # bytes left the buffer) make a later append land inside a referenced range (C03)
+    if host is None:
+        from ..report import host_modules
+        host_modules(chk, ctx, ['C03'])
+
     return chk.finish(
         explanation=('Static ownership and typestate rules for the rsync-friendly layout: closed-world scan of every call that can open, write, truncate, rename, '
                      'link or unlink a path below packs/ (only lock_pack opens for writing, mode "ab"; only repack_pack removes/links); a per-iteration machine on the '
